@@ -139,6 +139,17 @@ FRAGMENTS = [
 
 #: fragments that make sense for any rank (run on 1-D, 2-D and 3-D inputs)
 FRAGMENTS_ANY = [
+    "buf = torch.zeros(3)\ndef setk(b, k):\n    b[k] = 1\n    return k\nsetk(buf, 1)\nz = setk(buf, 2)\nr = buf + t.flatten()[0] + z",
+    "buf = torch.zeros(3)\nout = []\ndef walk(cur, k, s):\n    if k == 0:\n        out.append(cur.clone())\n        return\n    for p in range(s, 3 - k + 1):\n        cur[p] = 1\n        walk(cur, k - 1, p + 1)\n        cur[p] = 0\nwalk(buf, 2, 0)\nr = torch.stack(out) + t.flatten()[0]",
+    "buf = torch.zeros(3)\ndef bad(b):\n    b[0] = 5\n    return buf[0]\nr = bad(buf) + t.flatten()[0]",
+    "buf = torch.zeros(3)\ndef reb(b):\n    b = b.clone()\n    b[0] = 5\n    return b\nr = reb(buf) + buf + t.flatten()[0]",
+    "y = t.clone()\ny.mul_(2)\nr = y",
+    "y = t.clone()\ny.clamp_(min=0)\nr = y + 1",
+    "y = t.clone()\ny[0].zero_()\nr = y",
+    "y = t.clone()\ny.add_(1)\ny = t * 3\nr = y",
+    "acc = []\nbuf = torch.zeros(4)\ndef rec(k, start):\n    if k == 0:\n        acc.append(buf.clone())\n        return\n    last = 4 - k\n    for pos in range(start, last + 1):\n        buf[pos] = 1\n        rec(k - 1, pos + 1)\n        buf[pos] = 0\nrec(2, 0)\nr = torch.stack(acc) * t.flatten()[0]",
+    "acc = []\nbuf = torch.zeros(3)\ndef rec(k, start):\n    if k == 0:\n        acc.append(buf.clone())\n        return None\n    for pos in range(start, 3 - k + 1):\n        buf[pos] = t.flatten()[pos]\n        rec(k - 1, pos + 1)\n        buf[pos] = 0\nrec(1, 0)\nrec(3, 0)\nr = torch.stack(acc)",
+    "seen = []\ntotal = torch.zeros(2)\ndef note(v):\n    seen.append(v)\n    total[0] = total[0] + v\n    return len(seen)\nk = note(2.0) + note(3.0)\nr = total * k + t.flatten()[:2]",
     "y = torch.zeros((*t.shape, 2, 3))\ny[..., 1, 2] = t\ny[..., 0, 0] = 4\nr = y",
     "y = torch.zeros((*t.shape, 2, 3))\ny[..., 1, :] = t.unsqueeze(-1)\ny[..., 0, :] = torch.tensor([1.0, 2.0, 3.0])\nr = y",
     "y = torch.zeros((*t.shape, 2))\nfor k in range(2):\n    y[..., 0, k] = t[..., 0] + k\nr = y",
@@ -282,10 +293,10 @@ def main() -> int:
             t = rnd_tensor(rng, (2, 3) if src in FRAGMENTS else [(4,), (2, 3), (2, 2, 2)][rep_ % 3])
             fcases += 1
             tree = ast.parse(src)
-            g = {"torch": torch}
-            loc = {"t": t.clone()}
+            g = {"torch": torch, "t": t.clone()}
+            loc = g  # one namespace: functions defined in the fragment see its other names, as inside a function body
             try:
-                exec(compile(tree, "<f>", "exec"), g, loc)
+                exec(compile(tree, "<f>", "exec"), g)
                 want = loc["r"]
             except Exception:
                 torch_err += 1
